@@ -29,19 +29,19 @@ def main() -> int:
     expected = sequential(inst, none_tasks)
     _, comp_of = comp_names(pre)
     traces = []
-    if n < 0:
-        # exhaustive mode: every delivery order (capped at -n executions)
+    exh_cap = int(sys.argv[6]) if len(sys.argv) > 6 else 0
+    n_orders, complete = 0, None
+    if exh_cap > 0:
+        # every delivery order (executors run to quiescence between deliveries), capped
         from .simbridge import record_all_orders
-        traces, complete = record_all_orders(inst, job, env, pre, expected, cap=-n)
-        json.dump(traces, open(out, "w"))
-        json.dump({"comp_of": comp_of, "complete": complete}, open(out + ".meta", "w"))
-        return 0
+        traces, complete = record_all_orders(inst, job, env, pre, expected, cap=exh_cap)
+        n_orders = len(traces)
     for s in range(seed0, seed0 + n):
         # vary the amount of executor activity between controller steps and the batch size
         kw = {"max_exec_steps": (0, 1, 2, 4, 8)[s % 5], "max_batch": (1, 2, 3, 6)[(s // 5) % 4]}
         traces.append(record(inst, job, env, pre, s, expected, **kw))
     json.dump(traces, open(out, "w"))
-    json.dump({"comp_of": comp_of}, open(out + ".meta", "w"))
+    json.dump({"comp_of": comp_of, "complete": complete, "n_orders": n_orders}, open(out + ".meta", "w"))
     return 0
 
 
